@@ -190,7 +190,8 @@ def rand_int(rng):
 
 
 def rand_table(rng, ordered=True, small=False):
-    srcs = rng.sample(["prog.py", "lib/a.py", "a b.py", "d\xfcr/f.py", "x", "pkg/sub/mod.py", "unknown"], rng.randint(1, 4))
+    srcs = rng.sample(["prog.py", "lib/a.py", "a b.py", "d\xfcr/f.py", "x", "pkg/sub/mod.py", "unknown", "contracts%2Bv2/helpers.py",
+                       "my%20dir/mod%25.py", "a+b/c d.py", "q?x/h#1.py", "100%/%zz.py", "..%2F..%2Fx.py"], rng.randint(1, 4))
     names = rng.sample(["helper", "f", "K0", "na me", "\xe9"], rng.randint(1, 3))
     table = []
     for _ in range(rng.randint(1, 3 if small else 8)):
@@ -507,6 +508,31 @@ def internal_path_re():
     return StackFrame._internal_paths_re
 
 
+def real_json_roundtrip(j, pm, stats, here):
+    """from_json(to_json(m)) of the REAL implementation on a REAL map: same associations, and every decoded source
+    still names an existing file under the map's sourceRoot."""
+    from pyteal.compiler.sourcemap import R3SourceMap
+    out = []
+    want = [[(e[1], e[2], e[3], e[4]) + ((e[5],) if e[5] is not None else ())] for e in pm["entries"]]
+    r = call_real(lambda: table_of_map(R3SourceMap.from_json(j)))
+    stats["json_decoded_by_real_from_json"] = stats.get("json_decoded_by_real_from_json", 0) + 1
+    if r[0] != "ok":
+        out.append(("R3SourceMap.from_json raises %s on the JSON that to_json produced%s" % (r[1], here), {"exception": list(r[1:]), "sources": j.get("sources")}, None))
+        return out
+    got = [[tuple(s) for s in line] for line in r[1]]
+    if got != want:
+        first = next((i for i in range(min(len(got), len(want))) if got[i] != want[i]), None)
+        out.append(("from_json(to_json(map)) differs from the map: TEAL line %s decodes to %s, the map says %s%s" % (
+            None if first is None else first + 1, repr(got[first] if first is not None else len(got))[:200], repr(want[first] if first is not None else len(want))[:200], here),
+            {"first_diff_line": first, "sources": j.get("sources")}, None))
+    root_ = pm.get("root") or j.get("sourceRoot")
+    for src in sorted({s[1] for line in got for s in line if len(s) > 1 and s[1] is not None}):
+        if root_ and not os.path.isfile(os.path.normpath(os.path.join(root_, src))):
+            out.append(("source %r of the map decoded by from_json does not exist under sourceRoot %r%s" % (src, root_, here), {"source": src, "json_sources": j.get("sources")}, None))
+            break
+    return out
+
+
 def check_program(ck, model, root, pr, cfg, pm, pp, where, stats):
     """pm: program dict from the `map` process, pp: from the `plain` process. Returns list of (what, detail, known_id)."""
     bad = []
@@ -623,6 +649,7 @@ def check_program(ck, model, root, pr, cfg, pm, pp, where, stats):
             if got != want:
                 first = next((i for i in range(min(len(got or []), len(want))) if got[i] != want[i]), None)
                 bad.append(("R3 JSON decoded by the Coq decoder differs from the map's associations", {"first_diff_line": first, "got": repr(got[first] if got and first is not None else got)[:300], "want": repr(want[first] if first is not None else None)[:300], "mappings_head": j["mappings"][:200]}, None))
+        bad += real_json_roundtrip(j, pm, stats, "")
         if cfg["teal_filename"] is not None and j.get("file") != cfg["teal_filename"]:
             if where == "approval" or cfg["kind"] == "expr":
                 bad.append(("JSON 'file' differs from the requested teal_filename", {"file": j.get("file"), "asked": cfg["teal_filename"]}, None))
@@ -680,6 +707,12 @@ def validate_projects(ck, model, tmp, thorough):
     for i in range(n_router):
         prof = {"stmts": rng.choice([12, 25]), "depth": 3, "filler": rng.choice([0, 5]), "subs": 2, "macros": 1, "consts": 1, "itxn": True, "lib_stmts": 6}
         specs.append(("router", prof, ["contract_lib.py", "pkg/util.py"]))
+    HZ = [["contracts%2Bv2/helpers.py", "my%20dir/mod%25.py", "vendor/pyteal/helpers.py"],
+          ["a+b/c d.py", "q?x/h#1.py", "\xfcn\xef/c\xf6d\xe9_m\xf3dulo.py"],
+          ["%41%42/%2e%2e.py", "l" * 120 + "/" + "m" * 100 + ".py", "100%/sp ace%20.py"]]
+    for i in range(6 if thorough else 3):
+        prof = {"stmts": 15, "depth": 2, "filler": 2, "subs": 2, "macros": 1, "consts": 1, "lib_stmts": 6, "by_path": True}
+        specs.append(("router" if i % 3 == 2 else "expr", prof, HZ[i % 3]))
     for i in range(n_long):
         prof = {"stmts": 25, "depth": 3, "filler": 400, "long_file": 0, "long_filler": 6000 if not thorough else 15000, "main_filler": 8000, "subs": 3, "macros": 2, "consts": 1, "lib_stmts": 10}
         specs.append(("expr", prof, ["very_long_lib.py", "short_lib.py"]))
@@ -892,6 +925,8 @@ def check_session(ck, model, root, pr, steps, results, stats):
                 want = [[(e[1], e[2], e[3], e[4]) + ((e[5],) if e[5] is not None else ())] for e in pm["entries"]]
                 if got is None or [[tuple(s) for s in ln_] for ln_ in got] != want:
                     bad.append(("R3 JSON decoded by the Coq decoder differs from the map's associations" + here, {"step": st}))
+            for what_, det_, _k in real_json_roundtrip(j, pm, stats, here):
+                bad.append((what_, dict(det_, step=st, steps_so_far=seq[:])))
             if st["annotate"] and pm["annotated"] is not None:
                 al = pm["annotated"].split("\n")
                 ok_wire = [i for i in range(min(n, len(al))) if wire_ok(al[i]) and wire_ok(lines[i])]
@@ -1016,7 +1051,7 @@ def main(argv):
         raise TimeoutError("C15 check exceeded its wall-clock budget (a model request or a child process hangs)")
 
     signal.signal(signal.SIGALRM, too_long)
-    signal.alarm(3000 if thorough else 900)
+    signal.alarm(6000 if thorough else 2700)
     tmp = tempfile.mkdtemp(prefix="c15_")
     try:
         if args.replay:
